@@ -79,6 +79,18 @@ def regenerate_guards(result):
         result['tie_errors'].append('gofacts could not translate the current source: ' + out.strip().splitlines()[-1] if out.strip() else 'gofacts failed')
         result['gofacts_output'] = out[-2000:]
         return 'failed', None
+    # second generated file: control shapes of every mirrored function (nothing but the Shape<Area> lemma files reads
+    # it, so it is simply rewritten; a change breaks the lemma named after the function)
+    rc2, out2 = run(['go', 'run', '.', '-shapes', '-repo', REPO], cwd=GOFACTS, env=GOENV, timeout=300)
+    if rc2 != 0:
+        result['tie_errors'].append('gofacts -shapes could not read the current source: ' + (out2.strip().splitlines()[-1] if out2.strip() else 'failed'))
+    else:
+        shp = os.path.join(os.path.dirname(GUARDS), 'Shapes.lean')
+        if not os.path.exists(shp) or open(shp).read() != out2:
+            open(shp, 'w').write(out2)
+            result['coverage']['shapes_regenerated'] = 'changed with respect to the last generated file'
+        else:
+            result['coverage']['shapes_regenerated'] = 'identical to the last generated file'
     cur = open(GUARDS).read()
     if out == cur:
         return 'ok', out
@@ -87,6 +99,22 @@ def regenerate_guards(result):
 
 def lake_build(targets, timeout=3000):
     return run(['lake', 'build'] + targets, cwd=LEAN, timeout=timeout)
+
+
+def name_obligation(err):
+    """append the name of the theorem an error position lies in (`file.lean:line:col`)"""
+    m = re.search(r'(NitroVerif/\S+\.lean):(\d+):\d+', err)
+    if not m:
+        return err
+    try:
+        lines = open(os.path.join(LEAN, m.group(1))).read().splitlines()
+    except OSError:
+        return err
+    for i in range(min(int(m.group(2)), len(lines)) - 1, -1, -1):
+        t = re.match(r'\s*(?:@\[[^\]]*\]\s*)?(?:private\s+|protected\s+)?(?:theorem|lemma|def|example|instance)\s*([^\s:({\[]*)', lines[i])
+        if t:
+            return err + '  [in `%s` of %s]' % (t.group(1) or 'example', m.group(1))
+    return err
 
 
 def theorems_of(module):
